@@ -402,6 +402,63 @@ static Manifold genSolid(Rng& r, std::string& desc) {
 }
 static double relErr(double a, double b, double scale) { return std::fabs(a - b) / std::max(scale, 1e-300); }
 static void generalCase1(const std::string& tag0, Rng& r);
+// SplitByPlane / TrimByPlane on their own: solids AWAY from the origin, normals of any length (documented: "its length does not
+// matter"), offsets from far below to far above the solid - including planes that miss the solid entirely, where the cutter must still
+// cover (positive side) or avoid (negative side) the whole solid.  Oracle: exact side of the plane in long double x solid-angle winding.
+static void planeCase1(const std::string& tag0, Rng& r) {
+  std::string da; Manifold A0 = genSolid(r, da);
+  if (A0.Status() != Manifold::Error::NoError || A0.IsEmpty()) return;
+  const double far = r.below(4) == 0 ? rndIn(r, 0, 1) : rndIn(r, 2, 40);
+  double dir[3] = {rndIn(r, -1, 1), rndIn(r, -1, 1), rndIn(r, -1, 1)}; double dl = std::sqrt(dir[0] * dir[0] + dir[1] * dir[1] + dir[2] * dir[2]); if (dl < 0.2) { dir[0] = 1; dir[1] = dir[2] = 0; dl = 1; }
+  Manifold A = A0.Translate(vec3(dir[0], dir[1], dir[2]) * (far / dl));
+  TriMesh ta = exportMesh(A); Box bb = A.BoundingBox(); vec3 cen = bb.Center(); const double diag = la::length(bb.Size());
+  const double tol = std::max(A.GetTolerance(), implOf(A)->epsilon_); const LD margin = 10 * (LD)tol;
+  std::vector<vec3> pts; std::vector<int> inA;
+  for (int i = 0; i < 70; i++) {
+    vec3 p = vec3(rndIn(r, bb.min.x - 0.1, bb.max.x + 0.1), rndIn(r, bb.min.y - 0.1, bb.max.y + 0.1), rndIn(r, bb.min.z - 0.1, bb.max.z + 0.1));
+    LD q[3] = {(LD)p.x, (LD)p.y, (LD)p.z}; if (distMesh(ta, q) <= margin) continue;
+    pts.push_back(p); inA.push_back(lroundl(solidWinding(ta, q)) != 0);
+  }
+  const double va = A.Volume();
+  for (int k = 0; k < 5; k++) {
+    // normal: towards the solid / random / axis; length anywhere in 1e-2..1e2 or exactly |centre|
+    double n[3]; const int nk = (int)r.below(4); const double cl = la::length(cen);
+    if (nk == 0 && cl > 0.1) { n[0] = cen.x / cl + rndIn(r, -0.1, 0.1); n[1] = cen.y / cl + rndIn(r, -0.1, 0.1); n[2] = cen.z / cl + rndIn(r, -0.1, 0.1); }
+    else if (nk == 1) { int ax = (int)r.below(3); n[0] = n[1] = n[2] = 0; n[ax] = r.below(2) ? 1 : -1; }
+    else { n[0] = rndIn(r, -1, 1); n[1] = rndIn(r, -1, 1); n[2] = rndIn(r, -1, 1); }
+    double nl = std::sqrt(n[0] * n[0] + n[1] * n[1] + n[2] * n[2]); if (nl < 0.2) { n[0] = 1; n[1] = n[2] = 0; nl = 1; }
+    const int lk = (int)r.below(5); const double len = lk == 0 ? 1.0 : lk == 1 ? std::max(cl, 0.5) : std::pow(10.0, rndIn(r, -2, 2));
+    for (int j = 0; j < 3; j++) n[j] *= len / nl;
+    nl = std::sqrt(n[0] * n[0] + n[1] * n[1] + n[2] * n[2]);
+    const double proj = (cen.x * n[0] + cen.y * n[1] + cen.z * n[2]) / nl;   // signed distance of the bbox centre from the origin along the unit normal
+    const int ok = (int)r.below(6);
+    const double off = ok == 0 ? proj + rndIn(r, -0.3, 0.3) * diag : ok == 1 ? proj - rndIn(r, 0.6, 3) * diag : ok == 2 ? proj + rndIn(r, 0.6, 3) * diag
+                     : ok == 3 ? (r.below(2) ? 1.0 : -1.0) : ok == 4 ? proj * rndIn(r, 0, 1) : rndIn(r, -2, 2);
+    char tg[200]; snprintf(tg, sizeof tg, " plane%d n=(%.4g,%.4g,%.4g) off=%.6g far=%.3g", k, n[0], n[1], n[2], off, far);
+    std::string tag = tag0 + " " + da + tg, fail; char buf[500];
+    auto sbp = A.SplitByPlane(vec3(n[0], n[1], n[2]), off); Manifold trim = A.TrimByPlane(vec3(n[0], n[1], n[2]), off);
+    if (sbp.first.Status() != Manifold::Error::NoError || sbp.second.Status() != Manifold::Error::NoError || trim.Status() != Manifold::Error::NoError) { hz::emit(tag, "", "", false, "SplitByPlane/TrimByPlane of a valid solid returned an error Status"); continue; }
+    const Manifold* parts[3] = {&sbp.first, &sbp.second, &trim}; const char* names[3] = {"SplitByPlane.first", "SplitByPlane.second", "TrimByPlane"};
+    int nPos = 0, nNeg = 0;
+    for (int w = 0; w < 3 && fail.empty(); w++) {
+      std::vector<int> wn = parts[w]->WindingNumber(pts); TriMesh tm = exportMesh(*parts[w]);
+      for (size_t i = 0; i < pts.size(); i++) {
+        const LD pd = ((LD)pts[i].x * n[0] + (LD)pts[i].y * n[1] + (LD)pts[i].z * n[2]) / nl - off;
+        if (fabsl(pd) <= margin + 1e-9L * (1 + fabsl((LD)off))) continue;
+        const int want = inA[i] && (w == 1 ? pd < 0 : pd > 0);
+        if (w == 0 && inA[i]) { if (pd > 0) nPos++; else nNeg++; }
+        LD q[3] = {(LD)pts[i].x, (LD)pts[i].y, (LD)pts[i].z}; const LD sw = tm.t.empty() ? 0 : solidWinding(tm, q);
+        if ((wn[i] != 0) != (want != 0) || lroundl(sw) != want) { snprintf(buf, sizeof buf, "%s: point (%.17g,%.17g,%.17g) inA=%d signed distance to the plane %.6Lg: half-space part says %d, WindingNumber=%d, solid-angle winding of the exported part=%.6Lf", names[w], pts[i].x, pts[i].y, pts[i].z, inA[i], pd, want, wn[i], sw); fail = buf; break; }
+      }
+    }
+    if (fail.empty() && relErr(sbp.first.Volume() + sbp.second.Volume(), va, std::fabs(va)) > 1e-7) { snprintf(buf, sizeof buf, "Vol(SplitByPlane parts) = Vol A: %.15g + %.15g vs %.15g", sbp.first.Volume(), sbp.second.Volume(), va); fail = buf; }
+    if (fail.empty() && relErr(trim.Volume(), sbp.first.Volume(), std::fabs(va)) > 1e-7) { snprintf(buf, sizeof buf, "Vol(TrimByPlane) = Vol(SplitByPlane.first): %.15g vs %.15g", trim.Volume(), sbp.first.Volume()); fail = buf; }
+    hz::emit(tag + " pts=" + std::to_string(pts.size()) + " pos=" + std::to_string(nPos) + " neg=" + std::to_string(nNeg), "", "", fail.empty(), fail);
+  }
+}
+static void planeCase(const std::string& tag0, Rng& r) {
+  try { planeCase1(tag0, r); } catch (const std::exception& ex) { hz::emit(tag0 + " exception", "", "", false, std::string("exception thrown by SplitByPlane/TrimByPlane of a valid solid: ") + ex.what()); }
+}
 static void generalCase(const std::string& tag0, Rng& r) {
   try { generalCase1(tag0, r); } catch (const std::exception& ex) { hz::emit(tag0 + " exception", "", "", false, std::string("exception thrown by a Boolean of two valid operands: ") + ex.what()); }
 }
@@ -551,7 +608,7 @@ int main(int argc, char** argv) {
     else for (long k = 0; k < K; k++) one(r.below(bs.size()), r.below(bs.size()), r.below(bs.size()));
     hz::emit("triples triple-summary evaluated=" + std::to_string(n) + " failed=" + std::to_string(bad) + (K == 0 ? " exhaustive" : " sampled"), "", "", true);
     printf("STATS triples=%ld triple_failures=%ld triples_exhaustive=%d\n", n, bad, K == 0 ? 1 : 0); return 0; }
-  if (mode == "general") { int n = argc > 2 ? atoi(argv[2]) : 20; for (int i = 0; i < n; i++) generalCase("g" + std::to_string(i) + " general", r); return 0; }
+  if (mode == "general") { int n = argc > 2 ? atoi(argv[2]) : 20; for (int i = 0; i < n; i++) generalCase("g" + std::to_string(i) + " general", r); for (int i = 0; i < n; i++) planeCase("p" + std::to_string(i) + " plane", r); return 0; }
   if (mode == "bigbatch") {   // c02_bool bigbatch <level>   (0 quick, 1 thorough)  | c02_bool bigbatch N np layout mode
     if (argc > 5) { bigBatchCase("g0 bigbatch", r, atoi(argv[2]), atoi(argv[3]), atoi(argv[4]), atoi(argv[5])); return 0; }
     int level = argc > 2 ? atoi(argv[2]) : 0; int k = 0;
